@@ -15,6 +15,7 @@ C07 (heat share) — independent routes agree:
     (`cos((2n+1)π/2) = 0`, `sin((2n+1)π/2) = (−1)^n`):  `rodBC3_eq_mirror_rodBC4`.
 -/
 import EPV.Lemmas.HeatSeries
+import EPV.Lemmas.HeatTraced
 import EPV.Gen.SandwichInit
 import EPV.Gen.SandwichHotInit
 import EPV.Gen.SandwichHalfInit
@@ -33,11 +34,6 @@ namespace EPV.C07
 noncomputable section
 
 /-! ### constructor mappings (independent of N) -/
-
-/-- Rod1D parameters a PlanarSandwich stands for -/
-def sandwichP (p : Sandwich3.P) : RodP ℝ := ⟨p.kappa, p.L, p.TL, p.TR, 1, 0, p.TB, 1, 0, p.TT⟩
-def sandwichHotP (p : SandwichHot3.P) : RodP ℝ := ⟨p.kappa, p.L, p.TL, p.TR, 0, 1, p.F, 0, 1, p.F⟩
-def sandwichHalfP (p : SandwichHalf3.P) : RodP ℝ := ⟨p.kappa, p.L, p.TL, p.TR, 1, 0, p.TB, 0, 1, p.FT⟩
 
 /-- `PlanarSandwich.__init__`: (TB, TT) ↦ (1, 0, TB | 1, 0, TT), everything else unchanged -/
 theorem sandwich_mapping (p : SandwichInit.P) :
@@ -75,54 +71,27 @@ theorem sandwich_coefficients (p : SandwichInit.P) :
 
 /-! ### end-to-end traces (Nsum = 3) against the hand model -/
 
-/-- tactic for "traced N = 3 instance = hand model" -/
-macro "heat_n3" : tactic =>
-  `(tactic| (simp only [rodBC1, rodBC2, rodBC3, rodBC4]
-             rw [rodSeries_real]
-             simp only [Finset.sum_range_succ, Finset.sum_range_zero, zeroCoef_real, knInt_real, knHalf_real, bc1B_real,
-               bc2A_real, bc3B_real, bc4A_real, bc1Static_real, bc2Static_real, bc3Static_real, bc4Static_real]
-             norm_num
-             ring_nf))
-
 theorem sandwich3_eq_model (p : Sandwich3.P) (x t : ℝ) :
-    Sandwich3.temperature p x t = rodBC1 3 (sandwichP p) x t := by
-  simp only [epv_tree, epv_leaf, sandwichP]
-  heat_n3
+    Sandwich3.temperature p x t = rodBC1 3 (sandwichP p) x t := sandwich3_model p x t
 
 theorem sandwichHot3_eq_model (p : SandwichHot3.P) (x t : ℝ) :
-    SandwichHot3.temperature p x t = rodBC2 3 (sandwichHotP p) x t := by
-  simp only [epv_tree, epv_leaf, sandwichHotP]
-  heat_n3
+    SandwichHot3.temperature p x t = rodBC2 3 (sandwichHotP p) x t := sandwichHot3_model p x t
 
 theorem sandwichHalf3_eq_model (p : SandwichHalf3.P) (x t : ℝ) :
-    SandwichHalf3.temperature p x t = rodBC3 3 (sandwichHalfP p) x t := by
-  simp only [epv_tree, epv_leaf, sandwichHalfP]
-  heat_n3
-
-/-- the Rod1D parameters of the traced `Rod3` -/
-def rod3P (q : Rod3.P) : RodP ℝ := ⟨q.kappa, q.L, q.TL, q.TR, q.alpha1, q.beta1, q.gamma1, q.alpha2, q.beta2, q.gamma2⟩
+    SandwichHalf3.temperature p x t = rodBC3 3 (sandwichHalfP p) x t := sandwichHalf3_model p x t
 
 theorem rod3_bc1 (q : Rod3.P) (x t : ℝ) (h1 : q.alpha1 ≠ 0) (h2 : q.beta1 = 0) (h3 : q.alpha2 ≠ 0) (h4 : q.beta2 = 0) :
-    Rod3.temperature q x t = rodBC1 3 (rod3P q) x t ∧ Rod3.outcome q x t = .ok := by
-  simp only [epv_tree, epv_cond, h1, h2, h3, h4, if_true, if_false, epv_leaf, rod3P, and_true]
-  heat_n3
+    Rod3.temperature q x t = rodBC1 3 (rod3P q) x t ∧ Rod3.outcome q x t = .ok := rod3_bc1_model q x t h1 h2 h3 h4
 
 theorem rod3_bc2 (q : Rod3.P) (x t : ℝ) (h1 : q.alpha1 = 0) (h2 : q.beta1 ≠ 0) (h3 : q.alpha2 = 0) (h4 : q.beta2 ≠ 0)
     (hF : q.gamma1 / q.beta1 = q.gamma2 / q.beta2) :
-    Rod3.temperature q x t = rodBC2 3 (rod3P q) x t ∧ Rod3.outcome q x t = .ok := by
-  have hc5 : (q.gamma1 / q.beta1 = q.gamma2 / q.beta2) = True := eq_true hF
-  simp only [epv_tree, epv_cond, h1, h2, h3, h4, hc5, if_true, if_false, epv_leaf, rod3P, and_true]
-  heat_n3
+    Rod3.temperature q x t = rodBC2 3 (rod3P q) x t ∧ Rod3.outcome q x t = .ok := rod3_bc2_model q x t h1 h2 h3 h4 hF
 
 theorem rod3_bc3 (q : Rod3.P) (x t : ℝ) (h1 : q.alpha1 ≠ 0) (h2 : q.beta1 = 0) (h3 : q.alpha2 = 0) (h4 : q.beta2 ≠ 0) :
-    Rod3.temperature q x t = rodBC3 3 (rod3P q) x t ∧ Rod3.outcome q x t = .ok := by
-  simp only [epv_tree, epv_cond, h1, h2, h3, h4, if_true, if_false, epv_leaf, rod3P, and_true]
-  heat_n3
+    Rod3.temperature q x t = rodBC3 3 (rod3P q) x t ∧ Rod3.outcome q x t = .ok := rod3_bc3_model q x t h1 h2 h3 h4
 
 theorem rod3_bc4 (q : Rod3.P) (x t : ℝ) (h1 : q.alpha1 = 0) (h2 : q.beta1 ≠ 0) (h3 : q.alpha2 ≠ 0) (h4 : q.beta2 = 0) :
-    Rod3.temperature q x t = rodBC4 3 (rod3P q) x t ∧ Rod3.outcome q x t = .ok := by
-  simp only [epv_tree, epv_cond, h1, h2, h3, h4, if_true, if_false, epv_leaf, rod3P, and_true]
-  heat_n3
+    Rod3.temperature q x t = rodBC4 3 (rod3P q) x t ∧ Rod3.outcome q x t = .ok := rod3_bc4_model q x t h1 h2 h3 h4
 
 /-- **PlanarSandwich = Rod1D with the mapped parameters** (traced code against traced code, Nsum = 3) -/
 theorem sandwich3_eq_rod3 (p : Sandwich3.P) (x t μ0 μ1 μ2 : ℝ) :
